@@ -18,6 +18,25 @@ type Property struct {
 }
 
 var properties = map[string]*Property{
+	"C01": {
+		ID:    "C01",
+		Title: "Typed expressions over basic types evaluate exactly as compiled Go",
+		Units: []Unit{
+			{Kind: "funcs", Pkg: "fast", Funcs: []string{
+				"(*Comp).Add", "(*Comp).Sub", "(*Comp).Mul", "(*Comp).Quo", "(*Comp).Rem",
+				"(*Comp).And", "(*Comp).Or", "(*Comp).Xor", "(*Comp).Andnot",
+				"(*Comp).Lss", "(*Comp).Gtr", "(*Comp).Leq", "(*Comp).Geq", "(*Comp).Eql", "(*Comp).Neq",
+				"(*Comp).UnaryMinus", "(*Comp).UnaryXor", "(*Comp).UnaryNot",
+				"(*Env).Up", "(*Bind).intExpr", "(*Bind).expr", "(*Symbol).intExpr", "(*Symbol).expr",
+			}},
+		},
+		NotCovered: []string{
+			"composition over whole expression trees (structural induction on the program: a paper argument, DESIGN.md 4.6)",
+			"shortcut returns of the compile functions that do not create a closure (x+0 -> x, x*0 -> 0, power-of-two rewrites mulPow2/quoPow2/remPow2, exprZero): see known findings / DESIGN.md",
+			"shifts (Shl, Shr, Expr.AsUint64), && and || (Land, Lor), interface and nil comparisons (eqlneqMisc, eqlneqNilR), BinaryExpr1/UnaryExpr dispatch, EvalConst",
+			"run-time panics: a closure panics exactly where the Go operator it applies panics (closures use the Go operators themselves); compile-time rejection conditions are not under contract",
+		},
+	},
 	"C37": {
 		ID:    "C37",
 		Title: "REPL command lookup resolves unique prefixes and reports ambiguity",
